@@ -74,7 +74,7 @@ PROPS['C02'] = dict(
 )
 PROPS['C03'] = dict(
   level='proof',
-  verus=[dict(unit='ops', min_functions=10), dict(unit='peephole', min_functions=2), dict(unit='klass', min_functions=4), dict(unit='calls', min_functions=1), dict(unit='ncall', min_functions=1), dict(unit='propcomp', min_functions=9), dict(unit='fieldsc', min_functions=1), dict(unit='classc', min_functions=1)],
+  verus=[dict(unit='ops', min_functions=10), dict(unit='peephole', min_functions=2), dict(unit='klass', min_functions=4), dict(unit='calls', min_functions=1), dict(unit='ncall', min_functions=1), dict(unit='propcomp', min_functions=9), dict(unit='fieldsc', min_functions=1), dict(unit='classc', min_functions=1), dict(unit='compilerd', min_functions=1)],
   not_decided=['compile-time field numbering vs run-time Field order: emit_fields emits the Field instructions in the order find_known_field numbers them (fieldsc unit) and op_field / add_field give slots in arrival order (ops, klass); the initialiser is compiled before emit_fields and the methods after, with the new class current for exactly its members (classc unit), meta classes (meta_from_super), is_subclass (pointer recursion)',
                'A-heap: in the ops unit the class tables are abstract functions; that a field keeps its slot and a subclass extends its parent numbering is proved in the klass unit; A-slot'],
 )
